@@ -278,8 +278,13 @@ pub fn run_case(case: &Case) -> RunOutput {
     }
     // ---- teardown
     cx.log(EvKind::Phase(Phase::Teardown));
+    // stuck clients are cancelled first (so that their tables can be emptied below)
+    for t in sim.alive_tasks() {
+        if let TaskTag::Client(_) = sim.tag_of(t) {
+            sim.cancel_now(t);
+        }
+    }
     for (i, t) in tables.iter().enumerate() {
-        // a stuck client may hold a borrow of its table: then its handles are dropped with the task
         if let Ok(mut t) = t.try_borrow_mut() {
             for e in t.drain(..).flatten() {
                 drop_held(Some(i), e);
@@ -292,14 +297,6 @@ pub fn run_case(case: &Case) -> RunOutput {
     for (a, addr) in cx.outside.borrow_mut().drain(..) {
         cx.log(EvKind::HandleDrop { client: None, actor: a, kind: HKind::Addr, id: u32::MAX });
         drop(addr);
-    }
-    // stuck clients are cancelled now (their handles go with them)
-    for t in sim.alive_tasks() {
-        if let TaskTag::Client(_) = sim.tag_of(t) {
-            sim.add_cancel(sim.tag_of(t), sim.meta.borrow()[t].polls);
-            // make it runnable so that the cancellation takes effect
-            sim.force_ready(t);
-        }
     }
     let janitor_done = Rc::new(Cell::new(false));
     {
